@@ -736,6 +736,21 @@ if bad:
             if why: break
     if why:
         print(json.dumps({{'clause': 'acceptance', 'violation': why}})[:1500]); sys.exit(1)
+    # not visible in what is accepted: are the standings of the real object against the cards (C03 clauses), now or after the job's call?
+    cc = build(pre)
+    for stage in ['pre'] + [tuple(x) for x in D['calls']]:
+        if stage != 'pre':
+            call(cc, stage[0], stage[1])
+        sx = snap(cc)
+        for j, k in zip(sx['jumpers'], keys(sx)):
+            if j['best'] != (k['best'] or 0): why = '%s best %r but greatest height cleared is %r (after %r)' % (j['bib'], j['best'], k['best'], stage)
+        if sx['state'] in ('won', 'finished', 'drawn') and all(j['round_lim'] == 3 for j in sx['jumpers']):
+            want_p = countback_places(sx)
+            got_p = {{j['bib']: (j['place'] if j['hci'] >= 0 else '') for j in sx['jumpers']}}
+            if got_p != want_p: why = 'state %s: places %r but countback on the cards %r gives %r' % (sx['state'], got_p, [j['cols'] for j in sx['jumpers']], want_p)
+        if why: break
+    if why:
+        print(json.dumps({{'clause': 'places', 'violation': why}})[:1500]); sys.exit(1)
     print('NOT-REACHABLE-AS-MODELLED', bad); sys.exit(3)
 clause = D['clause']
 calls = D['calls']
@@ -812,6 +827,37 @@ else:
                         if len(col) > a_: hist.append((TR[col[a_]], j['bib']))
             hist += [tuple(x) for x in calls]
             viol = probe_next_calls(c, s_after, hist)
+    elif clause == 'tie-order':
+        # two histories that reach the same cards with a different order among equally ranked athletes: the round-robin order and its reverse
+        def build_rev(pre):
+            c = HighJumpCompetition()
+            for i, j in enumerate(pre['jumpers']): c.add_jumper(bib=j['bib'], order=i + 1)
+            for i, h in enumerate(pre['heights']):
+                c.set_bar_height(Decimal(h) / 100)
+                for a_ in range(3):
+                    for j in reversed(pre['jumpers']):
+                        col = j['cols'][i] if i < len(j['cols']) else ''
+                        if len(col) > a_: getattr(c, TR[col[a_]])(j['bib'])
+            return c
+        cr = build_rev(pre)
+        if public(snap(cr)) == public(s_before):
+            r2 = call(cr, m, a)
+            if r2 != r or (r == 'ok' and public(snap(cr)) != public(s_after)):
+                viol = 'same cards reached in round-robin and in reverse order, then %s(%r): %r vs %r' % (m, a, public(s_after), public(snap(cr)))
+    elif clause == 'replay':
+        # C08 on the concrete witness: the action log rebuilds the competition; so does the exported card (explicit passes aside)
+        c2 = c.from_actions()
+        if public(snap(c2)) != public(s_after): viol = 'from_actions(actions) differs: %r vs %r' % (public(snap(c2)), public(s_after))
+        elif not any('-' in col for j in s_after['jumpers'] for col in j['cols']):
+            try:
+                m = c.to_matrix()
+                c3 = HighJumpCompetition.from_matrix(m)
+                p3, p0 = public(snap(c3)), public(s_after)
+                if (p3['state'], p3['heights'], [(j['bib'], j['cols'], j['best'], j['place']) for j in sorted(p3['jumpers'], key=lambda x: x['bib'])]) != \
+                   (p0['state'], p0['heights'], [(j['bib'], [x for x in j['cols']], j['best'], j['place']) for j in sorted(p0['jumpers'], key=lambda x: x['bib'])]):
+                    viol = 'from_matrix(to_matrix()) differs: %r vs %r' % (p3, p0)
+            except RuleViolation as e:
+                viol = 'from_matrix(to_matrix()) refused: %s' % e
     elif clause == 'transition':
         pass
 print(json.dumps({{'clause': clause, 'calls': calls, 'pre': public(pre), 'violation': viol}})[:1500])
